@@ -287,4 +287,112 @@ theorem chain_block_text (E : Env) (cfg : Cfg) (ctx : Ctx) (st : St) (i j : Nat)
           hS, hO, hP, hQ, hps, hz, hso, hinc, hm1, hm2, hmap, hmap', hlg, k1, k2, k3, k4, k5]
         try simp [hbad, hmap', hm1, hm2, flushLists, flushCount, k1, k2, k3, k4, k5]
 
+/-! ### @inlist: `<span about property content lang inlist>` whose subject differs from the parent subject: a one-item list -/
+
+attribute [local simp] enter pre Node.typ Node.atom Node.attrs Node.id stepVocab locals0 step34
+  prefixEntries rule7 filterRel step56 step5 step5a step5b resOpt res orElseSt stepTypeof step8 step910 step11 propertyValue
+  datatypeIRI step12 childCtx walkKids leave St.newMap St.getMap St.emit emitEach emitTypes flushLists flushCount applyLang
+  stepLang plainLit step6 res3 step9 step9a step9b step9c step10 step10rel step10rev relTokens relIgnored resolveAsIRI
+  St.fresh St.pushList isHeadBody Mdd.Subj.term pushTo St.ensureList St.newList St.setMap St.getList freshN listCells alookup aset
+
+set_option maxRecDepth 4000 in
+theorem scan_inlist_block (E : Env) (x : Bool) (b s pv c lg : Bytes) :
+    scanAttrs E x [⟨[], asc "about", s⟩, ⟨[], asc "property", pv⟩, ⟨[], asc "content", c⟩, ⟨[], asc "lang", lg⟩,
+      ⟨[], asc "inlist", []⟩] { localBase := b } =
+      { about := some s, property := some pv, content := some c, lang := some lg, inlist := some [], localBase := b } := by
+  simp [scanAttrs, asc]
+
+def inlistBlock (i : Nat) (s pv c lg : Bytes) : Node :=
+  .mk i 3 [] (asc "span") [] [⟨[], asc "about", s⟩, ⟨[], asc "property", pv⟩, ⟨[], asc "content", c⟩, ⟨[], asc "lang", lg⟩,
+    ⟨[], asc "inlist", []⟩] []
+
+set_option linter.unusedSimpArgs false in
+set_option maxRecDepth 8000 in
+theorem inlist_block_text (E : Env) (cfg : Cfg) (ctx : Ctx) (st : St) (i : Nat) (s pv c lg S p : Bytes)
+    (hbad : st.bad = none) (hinc : ctx.incomplete = [])
+    (hps : ∀ z, ctx.parentSubject = some z → subjEq z (.iri S) = false)
+    (hlm : ctx.listMapping < st.maps.length) (hfresh : alookup p (st.getMap ctx.listMapping) ≠ some st.lists.length)
+    (hs : refIRI ctx.prefixes s = some S) (hp : predIRI ctx.prefixes pv = some p) :
+    (walk E cfg false ctx st (inlistBlock i s pv c lg)).bad = none ∧
+    (walk E cfg false ctx st (inlistBlock i s pv c lg)).out =
+      st.out ++ [⟨.bn st.nextBn, rdfFirst, plainLit c lg⟩, ⟨.bn st.nextBn, rdfRest, .iri rdfNil⟩,
+                 ⟨.iri S, p, .bnode st.nextBn⟩] := by
+  have hS : ∀ st b dv sf tm, resolveIRI E st ctx.prefixes s b dv sf tm = (some (.iri S), st) :=
+    fun st b dv sf tm => resolveIRI_ref E st _ s b dv sf tm S hs
+  have hP : ∀ st dv tm, resolveTokens E ctx.prefixes dv tm (fields (trimSpace pv)) st = ([p], st) :=
+    fun st dv tm => resolveTokens_pred E st _ pv dv tm p hp
+  obtain ⟨f1, f2, f3, f4, f5⟩ := span_facts
+  have hk : ∀ x, (st.maps ++ [x])[ctx.listMapping]? = st.maps[ctx.listMapping]? := fun x => List.getElem?_append_left hlm
+  unfold St.getMap at hfresh
+  rw [List.getD_eq_getElem?_getD] at hfresh
+  unfold inlistBlock walk
+  simp only [hbad, Option.isSome_none, Bool.false_eq_true, ↓reduceIte]
+  by_cases hlg : lg = []
+  all_goals cases hq : ctx.parentSubject with
+    | none =>
+      simp [f1, f2, f3, f4, f5, scan_inlist_block, hS, hP, hq, hinc, hlg, hk, hfresh]
+      try simp [hbad, hk, hfresh]
+    | some z =>
+      have hz := hps z hq
+      simp [f1, f2, f3, f4, f5, scan_inlist_block, hS, hP, hq, hz, hinc, hlg, hk, hfresh]
+      try simp [hbad, hk, hfresh]
+
+/-! ### @rev chaining across one nesting level: `<div about=s rev=pv><span about=o property=qv content=c lang=lg/></div>` -/
+
+set_option maxRecDepth 4000 in
+theorem scan_rev_block (E : Env) (x : Bool) (b s pv : Bytes) :
+    scanAttrs E x [⟨[], asc "about", s⟩, ⟨[], asc "rev", pv⟩] { localBase := b } =
+      { about := some s, rev := some pv, localBase := b } := by
+  simp [scanAttrs, asc]
+
+def revChainBlock (i j : Nat) (s pv o qv c lg : Bytes) : Node :=
+  .mk i 3 [] (asc "div") [] [⟨[], asc "about", s⟩, ⟨[], asc "rev", pv⟩] [litBlock j o qv c lg]
+
+set_option linter.unusedSimpArgs false in
+set_option maxRecDepth 8000 in
+set_option maxHeartbeats 1600000 in
+theorem rev_chain_block_text (E : Env) (cfg : Cfg) (ctx : Ctx) (st : St) (i j : Nat) (s pv o qv c lg S p O q : Bytes)
+    (hbad : st.bad = none) (hinc : ctx.incomplete = []) (hmap : st.getMap ctx.listMapping = [])
+    (hs : refIRI ctx.prefixes s = some S) (hp : predIRI ctx.prefixes pv = some p)
+    (ho : refIRI ctx.prefixes o = some O) (hq : predIRI ctx.prefixes qv = some q) :
+    (walk E cfg false ctx st (revChainBlock i j s pv o qv c lg)).bad = none ∧
+    (walk E cfg false ctx st (revChainBlock i j s pv o qv c lg)).out =
+      st.out ++ [⟨.iri O, q, plainLit c lg⟩, ⟨.iri O, p, .iri S⟩] := by
+  have hS : ∀ st b dv sf tm, resolveIRI E st ctx.prefixes s b dv sf tm = (some (.iri S), st) :=
+    fun st b dv sf tm => resolveIRI_ref E st _ s b dv sf tm S hs
+  have hO : ∀ st b dv sf tm, resolveIRI E st ctx.prefixes o b dv sf tm = (some (.iri O), st) :=
+    fun st b dv sf tm => resolveIRI_ref E st _ o b dv sf tm O ho
+  have hP : ∀ st dv tm, resolveTokens E ctx.prefixes dv tm (fields (trimSpace pv)) st = ([p], st) :=
+    fun st dv tm => resolveTokens_pred E st _ pv dv tm p hp
+  have hQ : ∀ st dv tm, resolveTokens E ctx.prefixes dv tm (fields (trimSpace qv)) st = ([q], st) :=
+    fun st dv tm => resolveTokens_pred E st _ qv dv tm q hq
+  obtain ⟨f1, f2, f3, f4, f5⟩ := span_facts
+  obtain ⟨g1, g2, g3, g4, g5, g6, g7, g8, g9⟩ := div_facts
+  have hm1 := getMap_setMaps_nil st _ hmap
+  have hm2 : (st.maps ++ [[]]).getD st.maps.length [] = [] := by simp
+  unfold St.getMap at hmap
+  have hmap' : st.maps[ctx.listMapping]?.getD [] = [] := by simpa [List.getD_eq_getElem?_getD] using hmap
+  have k1 := getD_append_nil _ _ hmap'
+  have k2 := getD_append_nil _ _ k1
+  have k3 : (st.maps ++ [[]])[st.maps.length]?.getD [] = [] := by simp
+  have k4 : (st.maps ++ [[]] ++ [[]])[st.maps.length]?.getD [] = [] := by simp
+  have k5 : (st.maps ++ [[]] ++ [[]])[st.maps.length + 1]?.getD [] = [] := by simp
+  unfold revChainBlock litBlock walk
+  simp only [hbad, Option.isSome_none, Bool.false_eq_true, ↓reduceIte]
+  by_cases hlg : lg = []
+  all_goals by_cases hso : subjEq (.iri S) (.iri O) = true
+  all_goals cases hps : ctx.parentSubject with
+    | none =>
+      simp [walk, f1, f2, f3, f4, f5, g1, g2, g3, g4, g5, g6, g7, g8, g9, scan_rev_block, scan_literal_block, filter_true,
+        hS, hO, hP, hQ, hps, hso, hinc, hm1, hm2, hmap, hmap', hlg, k1, k2, k3, k4, k5]
+      try simp [hbad, hmap', hm1, hm2, flushLists, flushCount, k1, k2, k3, k4, k5]
+    | some z =>
+      by_cases hz : subjEq z (.iri S) = true
+      · simp [walk, f1, f2, f3, f4, f5, g1, g2, g3, g4, g5, g6, g7, g8, g9, scan_rev_block, scan_literal_block, filter_true,
+          hS, hO, hP, hQ, hps, hz, hso, hinc, hm1, hm2, hmap, hmap', hlg, k1, k2, k3, k4, k5]
+        try simp [hbad, hmap', hm1, hm2, flushLists, flushCount, k1, k2, k3, k4, k5]
+      · simp [walk, f1, f2, f3, f4, f5, g1, g2, g3, g4, g5, g6, g7, g8, g9, scan_rev_block, scan_literal_block, filter_true,
+          hS, hO, hP, hQ, hps, hz, hso, hinc, hm1, hm2, hmap, hmap', hlg, k1, k2, k3, k4, k5]
+        try simp [hbad, hmap', hm1, hm2, flushLists, flushCount, k1, k2, k3, k4, k5]
+
 end RdfModel.Rdfad
